@@ -32,6 +32,9 @@ pub enum SOp {
     Disconnect,
     /// let the writers make progress
     Pause,
+    /// the session selects the database it already uses again (same credentials): nothing about its
+    /// subscriptions may change
+    Reselect,
 }
 
 #[derive(Clone, Debug, Serialize, Deserialize)]
@@ -106,6 +109,12 @@ fn gen(rng: &mut Rng) -> Program {
                     if !watching.contains(&key) {
                         watching.push(key.clone());
                         ops.push(SOp::Watch { key });
+                    } else if rng.chance(1, 3) {
+                        // a second registration of the same key by the same session (notifications may then
+                        // arrive more than once; one unwatch still ends the subscription)
+                        ops.push(SOp::Watch { key });
+                    } else if rng.chance(1, 2) {
+                        ops.push(SOp::Reselect);
                     } else {
                         ops.push(SOp::Pause);
                     }
@@ -332,6 +341,9 @@ fn execute(prog: Program, wire: bool) -> Outcome {
                             c.close();
                         }
                         SOp::Pause => sleep_ms(3),
+                        SOp::Reselect => {
+                            take(c.request_lossy("use-db d tok", 2_000).0, &nts);
+                        }
                     }
                     let ret = if matches!(op, SOp::Disconnect) { u64::MAX } else { seq.fetch_add(1, Ordering::SeqCst) };
                     recs.lock().unwrap().push(SRec { op: op.clone(), invoke, ret });
@@ -362,6 +374,7 @@ fn execute(prog: Program, wire: bool) -> Outcome {
                             nundb_verif_rt::stdx::thread::yield_now();
                             vec![]
                         }
+                        SOp::Reselect => s.exec("use-db d tok").msgs,
                     };
                     let ret = seq.fetch_add(1, Ordering::SeqCst);
                     recs.lock().unwrap().push(SRec { op: op.clone(), invoke, ret });
@@ -441,6 +454,25 @@ fn intervals(recs: &[SRec], key: &str) -> Vec<(u64, u64, u64, u64)> {
     v
 }
 
+/// the largest number of registrations of `key` the subscriber held at once (a session may watch a key it
+/// already watches: every write may then be notified up to that many times)
+fn multiplicity(recs: &[SRec], key: &str) -> usize {
+    let mut cur = 0usize;
+    let mut max = 1usize;
+    for r in recs {
+        match &r.op {
+            SOp::Watch { key: k } if k == key => {
+                cur += 1;
+                max = max.max(cur);
+            }
+            SOp::Unwatch { key: k } if k == key => cur = 0,
+            SOp::UnwatchAll | SOp::Disconnect => cur = 0,
+            _ => {}
+        }
+    }
+    max
+}
+
 fn check(out: &Outcome) -> (Vec<Violation>, bool) {
     let mut viols = Vec::new();
     let mut nontrivial = false;
@@ -473,6 +505,7 @@ fn check(out: &Outcome) -> (Vec<Violation>, bool) {
         }
         for key in [KEYS[0], KEYS[1], NKEY] {
             let ivs = intervals(recs, key);
+            let mult = multiplicity(recs, key);
             let unsub_kind = |ret: u64| -> String {
                 for r in recs {
                     if r.ret == ret || (ret == u64::MAX && matches!(r.op, SOp::Disconnect)) {
@@ -499,7 +532,7 @@ fn check(out: &Outcome) -> (Vec<Violation>, bool) {
                     SOp::Unwatch { .. } => "unwatch",
                     SOp::UnwatchAll => "unwatch-all",
                     SOp::Disconnect => "disconnect",
-                    SOp::Pause => "",
+                    SOp::Pause | SOp::Reselect => "",
                 })
                 .filter(|s| !s.is_empty())
                 .collect();
@@ -562,7 +595,7 @@ fn check(out: &Outcome) -> (Vec<Violation>, bool) {
                         format!("{}:{}", transport, after.map(|u| unsub_kind(u)).unwrap_or_else(|| "never-watched".into())),
                         format!("subscriber {} got {} notification(s) for `{} {} {}` [{}..{}] although it was not subscribed then (intervals {:?})", si, n, wr.kind, key, value, wr.invoke, wr.ret, ivs),
                     ));
-                } else if n > touching_ok {
+                } else if n > touching_ok * mult {
                     viols.push(Violation::new(
                         "notification-duplicated",
                         format!("{}:{}:{}{}", transport, wr.kind, other_shape, rep),
@@ -571,7 +604,7 @@ fn check(out: &Outcome) -> (Vec<Violation>, bool) {
                 }
             }
             let removed_seen = lines.iter().filter(|l| **l == format!("removed {}", key)).count() as u64;
-            if removed_seen < removes_inside || removed_seen > removes_maybe {
+            if removed_seen < removes_inside || removed_seen > removes_maybe * mult as u64 {
                 viols.push(Violation::new(
                     if removed_seen < removes_inside { "notification-lost" } else { "notified-outside-subscription" },
                     format!("{}:remove:{}", transport, other_shape),
@@ -590,7 +623,7 @@ fn check(out: &Outcome) -> (Vec<Violation>, bool) {
                 let n_vals = vals.len();
                 vals.sort();
                 vals.dedup();
-                if vals.len() < n_vals {
+                if vals.len() < n_vals && mult == 1 {
                     viols.push(Violation::new(
                         "notification-not-committed-value",
                         format!("{}:increment:{}", transport, if out.wrecs.iter().filter(|w| w.kind == "increment").map(|w| w.writer).collect::<std::collections::BTreeSet<_>>().len() > 1 { "two-writers" } else { "one-writer" }),
@@ -609,7 +642,7 @@ fn check(out: &Outcome) -> (Vec<Violation>, bool) {
                         }
                     }
                 }
-                if seen < inside || seen > maybe {
+                if seen < inside || seen > maybe * mult {
                     viols.push(Violation::new(
                         if seen < inside { "notification-lost" } else { "notified-outside-subscription" },
                         format!("{}:increment:{}", transport, other_shape),
@@ -668,7 +701,7 @@ impl Property for C03 {
         (300_000, 6_000_000)
     }
     fn rule(&self) -> &'static str {
-        "1-2 writer sessions (1-6 ops of {set,set-safe accepted/refused,increment,remove} on keys a,b and counter n, every written value unique) and 1-2 subscriber sessions (1-6 ops of {watch,unwatch,unwatch-all,disconnect,pause}, never watching one key twice) as concurrent tasks on a node booted by start_db; direct = process_request sessions (every lock a preemption point), wire = subscribers over the real TCP handler incl. its disconnect path. invoke/return stamped with a global sequence number. Scenario replicated: a 2-node cluster formed through the real protocol, one writer on the primary, 1-2 subscribers that are sessions of the secondary, watch 1-3 keys before the writer starts and stay until the cluster is quiet -- every accepted write must reach them once, with the committed value, as a replicated write. Non-trivial: some accepted write ran entirely inside a subscription. distinct = distinct (program, task-switch sequence)."
+        "1-2 writer sessions (1-6 ops of {set,set-safe accepted/refused,increment,remove} on keys a,b and counter n, every written value unique) and 1-2 subscriber sessions (1-6 ops of {watch,unwatch,unwatch-all,disconnect,pause}, a session may register a key it already watches (notifications may then repeat, one unwatch ends the subscription) and may re-select its database) as concurrent tasks on a node booted by start_db; direct = process_request sessions (every lock a preemption point), wire = subscribers over the real TCP handler incl. its disconnect path. invoke/return stamped with a global sequence number. Scenario replicated: a 2-node cluster formed through the real protocol, one writer on the primary, 1-2 subscribers that are sessions of the secondary, watch 1-3 keys before the writer starts and stay until the cluster is quiet -- every accepted write must reach them once, with the committed value, as a replicated write. Non-trivial: some accepted write ran entirely inside a subscription. distinct = distinct (program, task-switch sequence)."
     }
     fn assumptions(&self) -> Vec<String> {
         vec![
